@@ -267,7 +267,13 @@ class Inner:
             if nm == "vec":
                 return V("vec", elems=[src(a) for a in e.get("args", [])], raw=e.get("raw"))
             if nm in LOG_MACROS:
-                return V("unit")
+                from .normalise import pure_expr
+
+                if e.get("args") is not None and all(pure_expr(a) for a in e["args"]):
+                    return V("unit")
+                # `log::warn!("..", globals.update(&v))`: the arguments of a logging macro are evaluated only when that level is
+                # enabled — whatever they do happens with one logger and not with another
+                return self.unk(e, "a logging macro whose arguments do more than read: evaluated only when the level is enabled")
             return self.unk(e, "macro")
         if k == "mcall":
             return self._mcall(e)
@@ -514,7 +520,10 @@ class Inner:
                     result = "same" if (rx.is_var(e, elem) or (catch and rx.is_var(e, catch))) else e
                     continue
                 if e["k"] == "macro" and e["name"].split("::")[-1] in LOG_MACROS:
-                    continue
+                    from .normalise import pure_expr
+
+                    if e.get("args") is not None and all(pure_expr(a) for a in e["args"]):
+                        continue
                 effects.append(e)
             elif st["k"] == "macro" or st["k"] == "item":
                 continue
